@@ -728,7 +728,268 @@ fn ident_list_batch(b: &J) -> bool {
     counts.iter().any(|(c, n)| c != "solo" && *n >= 2)
 }
 
+const COND_PIECES: &[&str] = &[
+    "A", "B", "C", "A", "B", "and", "or", "not", "and", "or", "not", "(", ")", "(", ")", "all(", "of(", "int(", "flt(",
+    "str(", "string(", "not(", ",", "1", "0", "2", "1.5", "==", "<", "<=", ">", ">=", "=", "f", "g",
+    "android", "order", "nothing", "allow", "offline", "notable", "orbit", "andA", "Aand", "nota", "ora",
+    "-", "-1", ".", "..", "1.2.3", "1.", ".5", "99999999999999999999", "9223372036854775807", "#x", "A[0]", "A.B",
+    "_", "all", "of", "int", "all(A)", "of(B, 1)", "of(B,0)", "int(f)", "flt(g)", "str(f)", "int(f) == 1", "flt(g) < 1.5",
+    "str(f) == str(g)", "int(f) >= int(g)",
+];
+const COND_ODD: &[&str] = &["é", "É1", "😀", "&", "|", "\t", "\u{b}", "\u{a0}", "²", "٣", "Ａ", "ß", "!", "\"", "'", "%", "{", "}", "~", "\n"];
+
+fn atom_ids() -> J {
+    let atom = |n: &str| json!([cps(n), {"t":"map","es":[{"m":"none","c":0,"f":cps(&format!("f{}", n)),"v":{"t":"pat","k":"exact","ic":false,"a":cps("x")}}]}]);
+    json!([atom("A"), atom("B"), atom("C"), atom("android"), atom("order"), atom("nothing"), atom("allow"),
+           atom("offline"), atom("notable"), atom("orbit")])
+}
+
+fn atom_docs(g: &mut G) -> Vec<J> {
+    let names = ["A", "B", "C", "android", "order", "nothing", "allow", "offline", "notable", "orbit"];
+    let mut docs = vec![];
+    for _ in 0..5 {
+        let mut kv = vec![];
+        for n in names {
+            match g.r.below(3) {
+                0 => kv.push((format!("f{}", n), s_node("x"))),
+                1 => kv.push((format!("f{}", n), s_node("y"))),
+                _ => {}
+            }
+        }
+        match g.r.below(4) {
+            0 => kv.push(("f".into(), i_node("1"))),
+            1 => kv.push(("f".into(), s_node("1"))),
+            2 => kv.push(("f".into(), i_node("0"))),
+            _ => {}
+        }
+        match g.r.below(3) {
+            0 => kv.push(("g".into(), f_node("1.5"))),
+            1 => kv.push(("g".into(), f_node("0.5"))),
+            _ => {}
+        }
+        docs.push(obj(kv));
+    }
+    docs
+}
+
+/// a condition text from pieces; `odd`: include characters outside the specification's model of
+/// char::is_alphanumeric (then only totality is judged)
+fn cond_soup(g: &mut G, odd: bool) -> String {
+    let n = 1 + g.r.below(9);
+    let mut s = String::new();
+    for i in 0..n {
+        let piece = if odd && g.r.chance(1, 4) { *g.r.pick(COND_ODD) } else { *g.r.pick(COND_PIECES) };
+        let piece = piece.replace("\\t", "\t").replace("\\n", "\n").replace("\\u{b}", "\u{b}").replace("\\u{a0}", "\u{a0}");
+        s.push_str(&piece);
+        if i + 1 < n {
+            match g.r.below(6) {
+                0 => {}
+                1 => s.push_str("  "),
+                2 if odd => s.push('\t'),
+                _ => s.push(' '),
+            }
+        }
+    }
+    s
+}
+
+const PAT_CHARS: &[char] = &['i', '?', '>', '<', '=', '*', '\'', '"', 'a', 'A', '1', '.', '-', ' ', 'b', '0', '+', 'e', '(', '[', '\\', '$', '^', 'é', 'É', '😀'];
+
+fn pat_soup(g: &mut G) -> String {
+    let n = g.r.below(7);
+    (0..n).map(|_| *g.r.pick(PAT_CHARS)).collect()
+}
+
+fn yaml_shape(g: &mut G, depth: usize) -> J {
+    match g.r.below(if depth == 0 { 7 } else { 10 }) {
+        0 => json!({"t":"N"}),
+        1 => json!({"t":"B","b":g.r.chance(1, 2)}),
+        2 => i_node(&g.int_text()),
+        3 => i_node(&g.uint_text()),
+        4 => match g.r.below(4) {
+            0 => json!({"t":"F","neg":false,"d":[],"fr":[],"sp":"nan"}),
+            1 => json!({"t":"F","neg":g.r.chance(1, 2),"d":[],"fr":[],"sp":"inf"}),
+            _ => f_node(&g.flt_text()),
+        },
+        5 => s_node(&pat_soup(g)),
+        6 => s_node(&cond_soup(g, true)),
+        7 => {
+            let n = g.r.below(4);
+            json!({"t":"A","vs":(0..n).map(|_| yaml_shape(g, depth - 1)).collect::<Vec<_>>()})
+        }
+        _ => {
+            let n = g.r.below(4);
+            let mut kv = vec![];
+            for _ in 0..n {
+                let k = match g.r.below(8) {
+                    0 => "condition".to_string(),
+                    1 => pat_soup(g),
+                    2 => cond_soup(g, true),
+                    3 => (*g.r.pick(&["all(f)", "of(f, 1)", "of(f,0)", "not(f)", "int(f)", "flt(f)", "str(f)", "all(f", "of(f)", "f g", "a.b[0]", "a[0][1]", "[0]", "a[x]", "int(int(f))", "not (f)"])).to_string(),
+                    _ => (*g.r.pick(&["f", "g", "A", "B", "detection", "true_positives", "true_negatives"])).to_string(),
+                };
+                if kv.iter().any(|(x, _): &(String, J)| *x == k) {
+                    continue;
+                }
+                kv.push((k, yaml_shape(g, depth - 1)));
+            }
+            obj(kv)
+        }
+    }
+}
+
+/// {f: {f: ... leaf}} nested `depth` times, encoded compactly (the renderer expands it)
+fn deep_nest(depth: usize, leaf: J) -> J {
+    json!({"t":"nest","k":cps("f"),"n":depth,"v":leaf})
+}
+
+fn fuzz_case(g: &mut G, rule_files: &[String]) -> J {
+    match g.r.below(12) {
+        // condition text, inside the modelled alphabet: the grammar decides the outcome
+        0 | 1 | 2 => {
+            let text = cond_soup(g, false);
+            json!({"topic":"condfuzz","oracle":true,"wt":false,"bodies_ok":true,
+                   "src":{"cond":{"t":"text","s":cps(&text)},"ids":atom_ids()},"docs":atom_docs(g),
+                   "plan":{"tri":false,"sws":[[], [true,true,true,true]]}})
+        }
+        // condition text with arbitrary characters: totality only
+        3 => {
+            let text = cond_soup(g, true);
+            json!({"topic":"condfuzz","oracle":false,"wt":false,
+                   "src":{"cond":{"t":"text","s":cps(&text)},"ids":atom_ids()},"docs":atom_docs(g),
+                   "plan":{"tri":false,"sws":[[], [true,true,true,true]]}})
+        }
+        // pattern text on its own
+        4 | 5 => json!({"topic":"ident","run":"ident","text":cps(&pat_soup(g)),"icb":cfg!(feature = "ic")}),
+        // pattern text / key text inside a rule
+        6 => {
+            let p = pat_soup(g);
+            let inner = match g.r.below(3) {
+                0 => s_node(&p),
+                1 => json!({"t":"A","vs":[s_node(&p), s_node(&pat_soup(g)), s_node("x")]}),
+                _ => obj(vec![("g".into(), s_node(&p))]),
+            };
+            let key = match g.r.below(4) {
+                0 => pat_soup(g),
+                1 => cond_soup(g, true),
+                _ => "f".to_string(),
+            };
+            let det = obj(vec![("A".into(), obj(vec![(key, inner)])), ("condition".into(), s_node("A"))]);
+            json!({"topic":"fuzz","run":"fuzz","yaml":obj(vec![("detection".into(), det),
+                   ("true_positives".into(), json!({"t":"A","vs":[]})), ("true_negatives".into(), json!({"t":"A","vs":[]}))])})
+        }
+        // YAML shapes in every position
+        7 | 8 => {
+            let det = match g.r.below(4) {
+                0 => yaml_shape(g, 3),
+                _ => obj(vec![("A".into(), yaml_shape(g, 3)), ("condition".into(), if g.r.chance(3, 4) { s_node("A") } else { yaml_shape(g, 1) })]),
+            };
+            let mut kv = vec![("detection".to_string(), det)];
+            if g.r.chance(3, 4) {
+                kv.push(("true_positives".into(), if g.r.chance(2, 3) { json!({"t":"A","vs":[yaml_shape(g, 2)]}) } else { yaml_shape(g, 2) }));
+            }
+            if g.r.chance(3, 4) {
+                kv.push(("true_negatives".into(), if g.r.chance(2, 3) { json!({"t":"A","vs":[]}) } else { yaml_shape(g, 2) }));
+            }
+            if g.r.chance(1, 4) {
+                kv.push(("optimised".into(), yaml_shape(g, 0)));
+            }
+            json!({"topic":"fuzz","run":"fuzz","yaml":obj(kv)})
+        }
+        // deep nesting (bounded by 64)
+        9 => {
+            let d = 1 + g.r.below(64);
+            match g.r.below(3) {
+                0 => {
+                    let det = obj(vec![("A".into(), deep_nest(d, s_node("x"))), ("condition".into(), s_node("A"))]);
+                    json!({"topic":"fuzz","run":"fuzz","yaml":obj(vec![("detection".into(), det),
+                           ("true_positives".into(), json!({"t":"A","vs":[deep_nest(d, s_node("x"))]})), ("true_negatives".into(), json!({"t":"A","vs":[]}))])})
+                }
+                1 => {
+                    let text = format!("{}A{}", "(".repeat(d), ")".repeat(d));
+                    json!({"topic":"condfuzz","oracle":true,"wt":false,"bodies_ok":true,
+                           "src":{"cond":{"t":"text","s":cps(&text)},"ids":atom_ids()},"docs":atom_docs(g),
+                           "plan":{"tri":false,"sws":[[], [true,true,true,true]]}})
+                }
+                _ => {
+                    let text = format!("{}A", "not ".repeat(d));
+                    json!({"topic":"condfuzz","oracle":true,"wt":false,"bodies_ok":true,
+                           "src":{"cond":{"t":"text","s":cps(&text)},"ids":atom_ids()},"docs":atom_docs(g),
+                           "plan":{"tri":false,"sws":[[], [true,true,true,true]]}})
+                }
+            }
+        }
+        // raw text: mutations of the repository's own rule files, or random characters
+        _ => {
+            let mut text: Vec<char> = if !rule_files.is_empty() && g.r.chance(4, 5) {
+                g.r.pick(rule_files).chars().collect()
+            } else {
+                Vec::new()
+            };
+            let muts = 1 + g.r.below(6);
+            for _ in 0..muts {
+                let pos = g.r.below(text.len() + 1);
+                match g.r.below(5) {
+                    0 if !text.is_empty() => {
+                        let pos = pos.min(text.len() - 1);
+                        text.remove(pos);
+                    }
+                    1 if !text.is_empty() => {
+                        let pos = pos.min(text.len() - 1);
+                        let end = (pos + 1 + g.r.below(12)).min(text.len());
+                        text.drain(pos..end);
+                    }
+                    2 => {
+                        let ins: Vec<char> = pat_soup(g).chars().collect();
+                        for (i, c) in ins.into_iter().enumerate() {
+                            text.insert(pos + i, c);
+                        }
+                    }
+                    3 => {
+                        let ins: Vec<char> = cond_soup(g, true).chars().collect();
+                        for (i, c) in ins.into_iter().enumerate() {
+                            text.insert(pos + i, c);
+                        }
+                    }
+                    _ => text.insert(pos, *g.r.pick(&[':', '-', ' ', '\n', '#', '[', ']', '{', '}', '!', '&', '*', '|', '>', '\'', '"', '%', '@', '`', '\t', '\u{0}', 'é', '😀'])),
+                }
+            }
+            let t: String = text.into_iter().collect();
+            json!({"topic":"fuzz","run":"fuzz","text":cps(&t)})
+        }
+    }
+}
+
 pub fn gen_cases(topic: &str, seed: u64, n: usize, path: &str) -> Result<(), String> {
+    if topic == "fuzz" || topic == "condfuzz" || topic == "identfuzz" {
+        let mut g = G::new(seed ^ 0xF022);
+        let mut w = BufWriter::new(File::create(path).map_err(|e| e.to_string())?);
+        let mut files = vec![];
+        if let Ok(rd) = std::fs::read_dir("/repo/tests/rules") {
+            let mut names: Vec<_> = rd.filter_map(|e| e.ok()).map(|e| e.path()).collect();
+            names.sort();
+            for p in names {
+                if let Ok(t) = std::fs::read_to_string(&p) {
+                    files.push(t);
+                }
+            }
+        }
+        let mut k = 0;
+        while k < n {
+            let c = fuzz_case(&mut g, &files);
+            let keep = match topic {
+                "condfuzz" => c["topic"] == "condfuzz" && c["oracle"] == true,
+                "identfuzz" => c["topic"] == "ident",
+                _ => true,
+            };
+            if keep {
+                writeln!(w, "{}", c).map_err(|e| e.to_string())?;
+                k += 1;
+            }
+        }
+        w.flush().map_err(|e| e.to_string())?;
+        return Ok(());
+    }
     let mut g = G::new(seed ^ topic.bytes().fold(0u64, |a, b| a.wrapping_mul(131).wrapping_add(b as u64)));
     let mut w = BufWriter::new(File::create(path).map_err(|e| e.to_string())?);
     for _ in 0..n {
